@@ -139,6 +139,8 @@ Bad(r) ==
     \cup chk("topoi_rev", h, LAMBDA x, v : \A j \in DOMAIN v : TopoInitOK(x, v[j]))
     \cup chk("dfsv", g, LAMBDA x, v : \A j \in DOMAIN v : DfsvOK(x, v[j]))
     \cup chk("dfsv_rev", h, LAMBDA x, v : \A j \in DOMAIN v : DfsvOK(x, v[j]))
+    \cup chk("dfsvr", g, LAMBDA x, v : \A j \in DOMAIN v : DfsvOK(x, v[j]))          \* visitor returning Result<Control, E>
+    \cup chk("dfsvr_rev", h, LAMBDA x, v : \A j \in DOMAIN v : DfsvOK(x, v[j]))
 
 Init == i \in 1 .. Len(Recs) /\ verdict = "pending"
 Next == /\ verdict = "pending"
